@@ -18,6 +18,7 @@ import (
 
 	"perkeep.org/pkg/blob"
 	"perkeep.org/pkg/blobserver"
+	"perkeep.org/pkg/schema"
 
 	"verifharness/hk"
 	"verifharness/stores"
@@ -165,6 +166,13 @@ func (st *execState) exec(w []string) string {
 		return "bad-op"
 	}
 	switch w[0] {
+	case "nzips":
+		// how many zip blobs the blobpacked leaves of the tree hold (has a file been packed yet?)
+		n := 0
+		for _, l := range st.env.Large {
+			n += l.NumBlobs()
+		}
+		return fmt.Sprintf("zips %d", n)
 	case "seedlower":
 		// the blob is put into the lower store of a root-level overlay directly
 		if len(w) != 3 || st.root == nil || st.root.Kind != "overlay" {
@@ -840,6 +848,7 @@ func Run(r *hk.Run) {
 	}
 	oracleOnly(r)
 	bigBlobs(r)
+	packedFiles(r)
 	probes(r)
 }
 
@@ -951,6 +960,146 @@ func bigBlobs(r *hk.Run) {
 			break
 		}
 		r.Distinct("big:" + c.shape)
+		c.ex([]string{"cfg"})
+	}
+}
+
+// fileWriter lets schema.WriteFileFromReader upload through the case's `recv` op, so that every chunk,
+// bytes-schema and file-schema blob of the file is in the reference map.
+type fileWriter struct{ c *caseRun }
+
+func (w fileWriter) ReceiveBlob(ctx context.Context, br blob.Ref, src io.Reader) (blob.SizedRef, error) {
+	v, err := io.ReadAll(src)
+	if err != nil {
+		return blob.SizedRef{}, err
+	}
+	c := w.c
+	if out := c.op("recv " + hk.Hex([]byte(br.String())) + " " + hk.Hex(v)); out != fmt.Sprintf("sized %d", len(v)) {
+		c.r.Fail("packed-file-receive", c.label+": receive of a blob of a file being uploaded", fmt.Sprintf("sized %d", len(v)), trunc(out), nil)
+		return blob.SizedRef{}, errors.New("receive failed")
+	}
+	c.ref[br.String()] = v
+	return blob.SizedRef{Ref: br, Size: uint32(len(v))}, nil
+}
+
+func (w fileWriter) StatBlobs(ctx context.Context, blobs []blob.Ref, fn func(blob.SizedRef) error) error {
+	return nil // nothing is reported: every blob of the file is uploaded
+}
+
+// packedFiles: files large enough for blobpacked to pack their chunks into zips (>= 512 KiB), uploaded
+// the way clients do; afterwards every logical blob – now served from inside a zip – must answer fetch,
+// ranged fetch (every boundary of offset and length), stat, enumerate and paging exactly like the
+// reference map, also through the combinators above blobpacked, and loose blobs received before and after
+// the pack interleave with them (oracle only: blobpacked has no Lean model behind the C01 driver; its
+// pack/recovery logic is C04's).
+func packedFiles(r *hk.Run) {
+	rnd := r.R
+	specs := []string{"blobpacked", "ns blobpacked", "overlay mem blobpacked", "shard blobpacked blobpacked", "proxy:4000000 blobpacked memcache:300000",
+		"cond blobpacked mem", "replica blobpacked mem"}
+	if !r.Thorough() {
+		specs = []string{"blobpacked", "ns blobpacked", "shard blobpacked blobpacked", "proxy:4000000 blobpacked memcache:300000"}
+	}
+	for si, spec := range specs {
+		n, _, ok := ParseTree(strings.Fields(spec))
+		if !ok {
+			r.Note("bad packed-file spec " + spec)
+			continue
+		}
+		c := &caseRun{r: r, ex: NewExec(), ref: map[string][]byte{}, label: n.String() + "/packed", shape: n.Shape(), removed: map[string]bool{},
+			noModel: true, where: map[string]map[int]bool{}}
+		if out := c.op("cfg mem // " + spec); out != "ok" {
+			r.Note("cannot build " + spec + ": " + out)
+			continue
+		}
+		for i := 0; i < 4; i++ { // loose blobs first
+			b := mkBlob(rnd, rnd.Intn(6))
+			c.pool = append(c.pool, b)
+			c.op("recv " + hk.Hex([]byte(b.key)) + " " + hk.Hex(b.val))
+			c.ref[b.key] = b.val
+		}
+		size := 600<<10 + rnd.Intn(500<<10)
+		if si%2 == 1 {
+			size = 512<<10 + rnd.Intn(3) // right at the pack threshold
+		}
+		data := make([]byte, size)
+		seed := rnd.Bytes(97)
+		for j := range data {
+			data[j] = seed[j%97] ^ byte(j>>9) ^ byte(j>>17)
+		}
+		before := map[string]bool{}
+		for k := range c.ref {
+			before[k] = true
+		}
+		if _, err := schema.WriteFileFromReader(context.Background(), fileWriter{c}, fmt.Sprintf("f%d.bin", si), bytes.NewReader(data)); err != nil {
+			r.Note("packed-file upload failed on " + spec + ": " + err.Error())
+			c.ex([]string{"cfg"})
+			continue
+		}
+		zips := c.ex([]string{"nzips"})
+		r.Hit("packed-file:" + n.Kind + ":" + map[bool]string{true: "packed", false: "not-packed"}[zips != "zips 0"])
+		var chunks []string
+		for k := range c.ref {
+			if !before[k] {
+				chunks = append(chunks, k)
+			}
+		}
+		sort.Strings(chunks)
+		r.Hit(fmt.Sprintf("packed-file:blobs:%d", len(chunks)/8*8))
+		for i := 0; i < 3; i++ { // loose blobs after the pack
+			b := mkBlob(rnd, rnd.Intn(6))
+			c.pool = append(c.pool, b)
+			c.op("recv " + hk.Hex([]byte(b.key)) + " " + hk.Hex(b.val))
+			c.ref[b.key] = b.val
+		}
+		for _, k := range chunks {
+			v, hkey := c.ref[k], hk.Hex([]byte(k))
+			if out := c.op("fetch " + hkey); out != "bytes "+hk.Hex(v) {
+				c.r.Fail("packed-fetch-mismatch", c.label+": fetch of a blob of a packed file", trunc("bytes "+hk.Hex(v)), trunc(out), nil)
+			}
+			if out := c.op("stat " + hkey); out != fmt.Sprintf("stats %s:%d", hkey, len(v)) {
+				c.r.Fail("packed-stat-mismatch", c.label+": stat of a blob of a packed file", fmt.Sprint(len(v)), trunc(out), nil)
+			}
+			// re-receiving a packed blob is a no-op
+			if out := c.op("recv " + hkey + " " + hk.Hex(v)); out != fmt.Sprintf("sized %d", len(v)) {
+				c.r.Fail("packed-rereceive", c.label+": duplicate receive of a blob of a packed file", fmt.Sprintf("sized %d", len(v)), trunc(out), nil)
+			}
+			L := int64(len(v))
+			ranges := [][2]int64{{0, L}, {0, L + 1}, {0, 0}, {1, L - 1}, {1, L}, {1, L + 7}, {L - 1, 1}, {L - 1, 2}, {L, 0}, {L, 1}, {L + 1, 0}, {L / 2, L}, {L / 2, L/2 + 1},
+				{int64(rnd.Intn(int(L) + 1)), int64(rnd.Intn(int(L) + 2))}, {int64(rnd.Intn(int(L) + 1)), L}, {3, 1 << 40}}
+			for _, rg := range ranges {
+				off, ln := rg[0], rg[1]
+				if off < 0 || ln < 0 {
+					continue
+				}
+				out := c.ex([]string{"sub", hkey, fmt.Sprint(off), fmt.Sprint(ln)})
+				if out == "unimpl" {
+					r.Hit("packed-sub:unimpl:" + n.Kind)
+					break
+				}
+				c.r.ImplOnly("packed-sub")
+				c.log = append(c.log, fmt.Sprintf("sub %s %d %d", hkey, off, ln))
+				want := "range"
+				if off <= L {
+					end := off + ln
+					if end > L || end < off {
+						end = L
+					}
+					want = "bytes " + hk.Hex(v[off:end])
+				}
+				r.Hit("packed-sub:" + strings.Fields(want)[0])
+				if out != want {
+					c.fail("packed-subfetch-mismatch", fmt.Sprintf("SubFetch(%s, %d, %d) of a %d-byte blob of a packed file", k, off, ln, L), trunc(want), trunc(out))
+				}
+			}
+		}
+		for _, l := range []int{1, 2, 7, 1000} {
+			c.paging(l)
+		}
+		for i := 0; i < 60; i++ { // the usual random history on top (fetch/sub/stat/enum/recv; blobpacked has no remove)
+			c.step(rnd)
+		}
+		c.paging(3)
+		r.Distinct("packed:" + c.shape)
 		c.ex([]string{"cfg"})
 	}
 }
